@@ -320,7 +320,7 @@ func (m *Mux) encError(w http.ResponseWriter, r *http.Request, err error) {
 	w.Write(b) //nolint
 }
 
-func (m *Mux) serveHTTP(w http.ResponseWriter, r *http.Request) error {
+func (m *Mux) serveHTTP(w http.ResponseWriter, r *http.Request) (err error) {
 	ctx, mdata := newIncomingContext(r.Context(), r.Header)
 
 	s := m.loadState()
@@ -350,6 +350,7 @@ func (m *Mux) serveHTTP(w http.ResponseWriter, r *http.Request) error {
 
 	// Handle stats.
 	beginTime := time.Now()
+	var herr error // handler error
 	if sh := m.opts.statsHandler; sh != nil {
 		ctx = sh.TagRPC(ctx, &stats.RPCTagInfo{
 			FullMethodName: hd.method,
@@ -371,6 +372,20 @@ func (m *Mux) serveHTTP(w http.ResponseWriter, r *http.Request) error {
 			IsServerStream:            hd.desc.IsStreamingServer(),
 			IsTransparentRetryAttempt: false, // TODO
 		})
+
+		// The RPC has begun, end it on every return path.
+		defer func() {
+			endErr := herr
+			if endErr == nil {
+				endErr = err
+			}
+			sh.HandleRPC(ctx, &stats.End{
+				Client:    false,
+				BeginTime: beginTime,
+				EndTime:   time.Now(),
+				Error:     endErr,
+			})
+		}()
 	}
 
 	if isWebsocket {
@@ -387,7 +402,7 @@ func (m *Mux) serveHTTP(w http.ResponseWriter, r *http.Request) error {
 			method: method,
 			params: params,
 		}
-		herr := hd.handler(&m.opts, stream)
+		herr = hd.handler(&m.opts, stream)
 
 		if herr != nil {
 			s, _ := status.FromError(herr)
@@ -406,17 +421,6 @@ func (m *Mux) serveHTTP(w http.ResponseWriter, r *http.Request) error {
 			if _, err := conn.Write(ws.CompiledClose); err != nil {
 				return err
 			}
-		}
-
-		// Handle stats.
-		if sh := m.opts.statsHandler; sh != nil {
-			endTime := time.Now()
-			sh.HandleRPC(ctx, &stats.End{
-				Client:    false,
-				BeginTime: beginTime,
-				EndTime:   endTime,
-				Error:     herr,
-			})
 		}
 		return nil
 	}
@@ -469,23 +473,14 @@ func (m *Mux) serveHTTP(w http.ResponseWriter, r *http.Request) error {
 		acceptEncoding: acceptEncoding,
 		hasBody:        r.ContentLength > 0 || r.ContentLength == -1,
 	}
-	herr := hd.handler(&m.opts, stream)
+	herr = hd.handler(&m.opts, stream)
 	// Try to send Trailers, might not be respected.
 	setOutgoingHeader(w.Header(), stream.trailer)
 
 	// Handle stats.
 	if sh := m.opts.statsHandler; sh != nil {
-		endTime := time.Now()
-
 		sh.HandleRPC(ctx, &stats.OutTrailer{
 			Trailer: stream.trailer.Copy(),
-		})
-
-		sh.HandleRPC(ctx, &stats.End{
-			Client:    false,
-			BeginTime: beginTime,
-			EndTime:   endTime,
-			Error:     herr,
 		})
 	}
 	if herr != nil {
